@@ -8,6 +8,12 @@ Two exhaustive legs (DESIGN.md C16):
     property stated over the history); the labelled state graph is dumped and EVERY maximal
     path is replayed against the real loops, comparing the loss history, the number of
     epochs/steps and the returned parameter version with the model's terminal state.
+ 3. TLA+ with ties: models/EarlyStopTies.tla and models/VarFitTies.tla let losses REPEAT and are
+    non-deterministic exactly where the statement is (count patience from the first or the last
+    epoch attaining the minimum; any epoch attaining it may supply the best parameters). TLC
+    verifies the tie-aware invariants; the real loops are run on EVERY loss word over 1..V of
+    every length <= L and the observed behaviour must be one of the model's behaviours for that
+    word (trace inclusion). One value map sends the largest rank to +inf.
 """
 import hashlib
 import itertools
@@ -23,7 +29,8 @@ RULE = (
     "history of length >= 2 whose minimum is not at the last position (best != last parameters)"
 )
 ASSUMPTIONS = [
-    "loss values are distinct (ties are outside the property's statement); two value maps: well separated, and a float64 plateau with values 1e-10 apart",
+    "legs 1-2: loss values are distinct; two value maps: well separated, and a float64 plateau with values 1e-10 apart",
+    "leg 3 (ties): where the statement is ambiguous about ties every reading is accepted (see models/EarlyStopTies.tla); NaN losses are not losses and are not enumerated; +inf is",
     "scripted loss reads the parameter version t written by a counting optimiser (+1 per update), so the "
     "returned t names the update count of the returned parameters",
     "TLC 1.8.0 is trusted to explore the TLA+ models exhaustively",
@@ -42,6 +49,10 @@ def _L(tier):
     return {"quick": (4, 4), "thorough": (6, 6)}[tier]  # (direct L, TLA L)
 
 
+def _ties(tier):
+    return {"quick": (4, 3), "thorough": (5, 3)}[tier]  # (L epochs/steps, V distinct values) of the tie models
+
+
 def bounds(tier):
     ld, lt = _L(tier)
     return {
@@ -49,6 +60,8 @@ def bounds(tier):
         f"fit_to_data with 1,2,3 train batches per epoch (1 or 2 val batches); variational steps=m",
         "tla_leg": f"EarlyStop.tla and VarFit.tla with L={lt}: all reachable states, all maximal paths replayed "
         "for return_best T/F and 1 or 2 train batches per epoch",
+        "tla_ties_leg": "EarlyStopTies.tla / VarFitTies.tla with (L, V) = %s: every loss word over 1..V of every length <= L x max_patience "
+        "0..L x return_best T/F x 1-2 train batches per epoch x value maps {finite, largest=+inf}; trace inclusion in the model" % (_ties(tier),),
         "exhaustive_within_bounds": True,
     }
 
@@ -107,7 +120,32 @@ def enumerate_cases(tier, seed):
         paths.sort(key=lambda d: d["vals"])
         cases.append({"id": f"tla|var|steps={steps}", "leg": "tla", "kind": "var", "me": steps, "pat": 0,
                       "paths": paths, "seed": seed, "L": lt})
-    enumerate_cases.tlc_stats = {"EarlyStop": st1, "VarFit": st2}
+    # --- TLA leg with ties: acceptance sets per configuration; the words are enumerated in the worker
+    lt_, v_ = _ties(tier)
+    nodes3, edges3, st3 = run_tlc("EarlyStopTies", {"L": lt_, "V": v_},
+                                  ["AtMostMaxEpochs", "NeverStopsEarly", "NeverRunsOn", "StopsWhenForced", "BestAttainsMin"], "est")
+    groups = {}
+    for p in maximal_paths(nodes3, edges3):
+        term = nodes3[p[-1]]
+        groups.setdefault((term["maxEpochs"], term["patience"]), []).append(
+            {"vals": term["vals"], "stopped": term["stopped"], "version": term["version"], "best": term["best"]})
+    for (me, pat), paths in sorted(groups.items()):
+        paths.sort(key=lambda d: (d["vals"], d["stopped"], d["best"]))
+        for kind in ("data_B1", "data_B2"):
+            for vm in (0, 2):
+                cases.append({"id": f"ties|{kind}|maxEpochs={me}|pat={pat}|values={'finite' if vm == 0 else 'top=inf'}", "leg": "ties", "kind": kind,
+                              "me": me, "pat": pat, "paths": paths, "seed": seed, "L": lt_, "V": v_, "vm": vm})
+    nodes4, edges4, st4 = run_tlc("VarFitTies", {"L": lt_, "V": v_}, ["ExactlyOneLossPerStep", "BestAttainsMin"], "vft")
+    groups = {}
+    for p in maximal_paths(nodes4, edges4):
+        term = nodes4[p[-1]]
+        groups.setdefault(term["steps"], []).append({"vals": term["losses"], "stopped": False, "version": term["version"], "best": term["best"]})
+    for steps, paths in sorted(groups.items()):
+        paths.sort(key=lambda d: (d["vals"], d["best"]))
+        for vm in (0, 2):
+            cases.append({"id": f"ties|var|steps={steps}|values={'finite' if vm == 0 else 'top=inf'}", "leg": "ties", "kind": "var", "me": steps, "pat": 0,
+                          "paths": paths, "seed": seed, "L": lt_, "V": v_, "vm": vm})
+    enumerate_cases.tlc_stats = {"EarlyStop": st1, "VarFit": st2, "EarlyStopTies": st3, "VarFitTies": st4}
     return cases
 
 
@@ -115,16 +153,21 @@ def finalize(tier, seed, cases, results):
     st = getattr(enumerate_cases, "tlc_stats", {})
     n_paths = sum(len(c["paths"]) for c in cases if c["leg"] == "tla")
     return {"tlc": st, "tla_maximal_paths": n_paths,
-            "tla_paths_replayed_on_impl": sum(r.get("counters", {}).get("tla_replays", 0) for r in results)}
+            "tla_paths_replayed_on_impl": sum(r.get("counters", {}).get("tla_replays", 0) for r in results),
+            "ties_words_run_on_impl": sum(r.get("counters", {}).get("ties_runs", 0) for r in results),
+            "ties_model_behaviours_offered": sum(r.get("counters", {}).get("ties_offered", 0) for r in results),
+            "ties_model_behaviours_taken_by_impl": sum(r.get("counters", {}).get("ties_taken", 0) for r in results)}
 
 
 # ----------------------------------------------------------------------------- worker side
 _ENV = {}
+_ENV_TOP = {}
 
 
-def _env(seed, vm=0):
-    if _ENV.get("seed") == seed and _ENV.get("vm") == vm:
+def _env(seed, vm=0, top=None):
+    if _ENV.get("seed") == seed and _ENV.get("vm") == vm and _ENV_TOP.get("top") == top:
         return _ENV
+    _ENV_TOP["top"] = top
     import equinox as eqx
     import jax
     import jax.numpy as jnp
@@ -139,9 +182,13 @@ def _env(seed, vm=0):
         t: jax.Array
         table: jax.Array  # int ranks: not an inexact leaf, hence never trained
 
+    top = _ENV_TOP.get("top") if vm == 2 else None
+
     def _loss(model):
         idx = jnp.round(model.t).astype(jnp.int32)
-        return (model.table[idx].astype(model.t.dtype) + off) * scale + 0.0 * model.t
+        r = model.table[idx]
+        v = (r.astype(model.t.dtype) + off) * scale + 0.0 * model.t
+        return v if top is None else jnp.where(r == top, jnp.inf, v)
 
     def data_loss(params, static, x, condition=None, key=None):
         return _loss(eqx.combine(params, static))
@@ -230,7 +277,7 @@ def ref_var(script, steps, rb, val):
 def _close(a, b):
     if isinstance(a, list):
         return len(a) == len(b) and all(_close(x, y) for x, y in zip(a, b))
-    if isinstance(a, bool) or isinstance(b, bool):
+    if isinstance(a, bool) or isinstance(b, bool) or a == b:
         return a == b
     return abs(a - b) <= 1e-6 * (1 + abs(b))
 
@@ -239,10 +286,67 @@ def _cmp(obs, exp):
     return [k for k in exp if not _close(obs.get(k), exp[k])]
 
 
+def _run_ties(case, env, val):
+    """Trace inclusion: the real loop on every word over 1..V; the observation must be one of the model's maximal
+    behaviours whose loss history is the observed one."""
+    kind, me, pat, V = case["kind"], case["me"], case["pat"], case["V"]
+    accept = {}
+    for p in case["paths"]:
+        accept.setdefault(tuple(p["vals"]), []).append(p)
+    viols, outcomes, obs_all, taken = [], {}, [], set()
+    runs = nontrivial = 0
+    loop = "fit_to_variational_target" if kind == "var" else "fit_to_data"
+    for word in itertools.product(range(1, V + 1), repeat=me):
+        script = list(word)
+        for rb in (True, False):
+            runs += 1
+            if kind == "var":
+                obs, _ = run_var(env, script, me, rb)
+                hist, B = obs["losses"], 1
+            else:
+                B = DATA_KINDS[kind][3]
+                obs, _ = run_data(env, kind, script, me, pat, rb)
+                hist = obs["val"]
+            n = len(hist)
+            extra = {"rb": rb, "max_epochs_or_steps": me, "max_patience": pat, "kind": kind}
+            obs_all.append([script, obs])
+            bad = None
+            if n > me or not _close(hist, [val(r) for r in script[:n]]) or (kind != "var" and len(obs["train"]) != n):
+                bad = "history"
+            else:
+                cands = accept.get(tuple(script[:n]), [])
+                ok = [c for c in cands if _close(obs["t"], float((c["best"] if rb else c["version"]) * B))]
+                if not cands:
+                    bad = "stop"  # the model has no maximal behaviour ending after exactly these epochs
+                elif not ok:
+                    bad = "t"
+                else:
+                    taken.update((tuple(c["vals"]), c["stopped"], c["best"]) for c in ok)
+            if len(set(script[:n])) < n:
+                nontrivial += 1
+            tag = f"ties:len={n},t={obs['t']:g}"
+            outcomes[tag] = outcomes.get(tag, 0) + 1
+            if bad:
+                allowed = sorted({(len(c["vals"]), c["best"] if rb else c["version"]) for w, cs in accept.items() if list(w) == script[:len(w)] for c in cs})
+                viols.append({"sig": f"C16|{loop}|ties|rb={int(rb)}|mismatch={bad}",
+                              "msg": f"{loop} {extra} losses with ties script={script}: observed history of length {n}, returned version {obs['t'] / B:g}; "
+                                     f"the tie-aware model allows (epochs run, version) in {allowed}",
+                              "detail": {"script": script, "observed": obs, "allowed": allowed, **extra}})
+    digest = hashlib.sha1(json.dumps(obs_all, sort_keys=True).encode()).hexdigest()
+    return {"transitions": runs, "traces": runs, "states": 1 + runs, "nontrivial": nontrivial, "violations": viols, "outcomes": outcomes,
+            "digest": digest, "counters": {"ties_runs": runs, "ties_offered": len(case["paths"]), "ties_taken": len(taken)},
+            "sample": obs_all[-1] if obs_all else None}
+
+
 def run_case(case):
-    env = _env(case["seed"], case.get("vm", 0))
+    env = _env(case["seed"], case.get("vm", 0), case.get("V") if case.get("vm") == 2 else None)
     off, scale = env["off"], env["scale"]
     val = lambda r: (r + off) * scale  # noqa: E731
+    if case["leg"] == "ties":
+        if case["vm"] == 2:
+            top = case["V"]
+            val = lambda r: float("inf") if r == top else (r + off) * scale  # noqa: E731
+        return _run_ties(case, env, val)
     viols, outcomes, obs_all = [], {}, []
     transitions = nontrivial = replays = 0
     kind = case["kind"]
